@@ -86,6 +86,7 @@ package help
 //@     invariant part.ok: OptsListOK(requiredOptions) && OptsListOK(normalOptions)
 //@     invariant part.all {C18}: forall j int :: 0 <= j && j <= $idx ==> inseq(options[j], requiredOptions) || inseq(options[j], normalOptions)
 //@   loop "for _, option := range append(requiredOptions, normalOptions...)"
+//@     invariant syn.sorted {C20}: SortedByName(requiredOptions) && SortedByName(normalOptions)
 //@     invariant syn.kinds: OptsListOK($ranged)
 //@     step syn.entry {C18}: contains(out ++ line, $ranged[$idx].HelpSynopsis) && hasprefix(out ++ line, old_iter(out ++ line))
 //@ func CommandList
@@ -96,6 +97,7 @@ package help
 //@     invariant names.complete {C18}: forall q string :: (q in $seen) ==> inseq(q, names)
 //@     invariant names.sound: forall i int :: 0 <= i && i < len(names) ==> (names[i] in commandMap)
 //@   loop "for _, command := range names"
+//@     invariant cmds.sorted {C20}: sorted(names)
 //@     step cmds.entry {C18}: contains(out, names[$idx]) && hasprefix(out, old_iter(out))
 //@ func OptionList
 //@   props C18 C19
@@ -113,10 +115,12 @@ package help
 //@   loop "for _, arg := range args"@2
 //@     invariant args2.width: 0 <= synopsisLength && synopsisLength <= 72057594037927936
 //@   loop "for _, option := range requiredOptions"
+//@     invariant req.sorted {C20}: SortedByName(requiredOptions) && SortedByName(normalOptions)
 //@     invariant req.width: 0 <= synopsisLength && synopsisLength <= 72057594037927936
 //@     invariant req.kinds: OptsListOK(requiredOptions) && OptsListOK(normalOptions) && (forall j int :: 0 <= j && j < len(normalOptions) ==> !normalOptions[j].IsRequired)
 //@     step req.entry {C18}: contains(out, requiredOptions[$idx].HelpSynopsis) && hasprefix(out, old_iter(out))
 //@   loop "for _, option := range normalOptions"
+//@     invariant norm.sorted {C20}: SortedByName(normalOptions)
 //@     invariant norm.width: 0 <= synopsisLength && synopsisLength <= 72057594037927936
 //@     invariant norm.kinds: OptsListOK(normalOptions) && (forall j int :: 0 <= j && j < len(normalOptions) ==> !normalOptions[j].IsRequired)
 //@     step norm.entry {C18}: contains(out, normalOptions[$idx].HelpSynopsis) && contains(out, "(default: " ++ normalOptions[$idx].DefaultStr) && hasprefix(out, old_iter(out))
